@@ -243,6 +243,9 @@ func ExpandStack(name string) string {
 	lines := strings.Split(name, "\n")
 	last := ""
 	for i, l := range lines {
+		if i == 0 {
+			continue // the counter's own name: not a frame, never abbreviated
+		}
 		d := strings.LastIndexByte(l, '.')
 		if d <= 0 {
 			continue
